@@ -396,7 +396,25 @@ func genGbRecordN(rng *rand.Rand, fixedN, maxSeq, maxFeats int) (lines []string,
 	for i := 0; i < rng.Intn(maxFeats+1); i++ {
 		key := []string{"source", "gene", "CDS", "misc_feature", "tRNA", "rep_origin", "exon", "regulatory"}[rng.Intn(8)]
 		var locPieces []string
-		switch rng.Intn(4) {
+		switch rng.Intn(6) {
+		case 4, 5: // a location tree of the INSDC grammar: single bases, partial markers, nested operators
+			g := genAst(rng, n, 1+rng.Intn(2))
+			if g.kind == "join" {
+				for j, x := range g.xs {
+					p := x.text()
+					if j == 0 {
+						p = "join(" + p
+					}
+					if j == len(g.xs)-1 {
+						p += ")"
+					} else {
+						p += ","
+					}
+					locPieces = append(locPieces, p)
+				}
+			} else {
+				locPieces = []string{g.text()}
+			}
 		case 0:
 			a := 1 + rng.Intn(n)
 			locPieces = []string{fmt.Sprintf("%d..%d", a, a+rng.Intn(n-a+1))}
